@@ -93,9 +93,9 @@ type FuncContract struct {
 	AssumeRanges bool
 	FPMonotone   bool
 	FPInexact    bool
-	FPAbstract   bool // floats are unconstrained values (NaN/Inf included); only float-independent facts are provable
-	Contended bool // runs concurrently with writers of the mutexes it read-locks
-	Variant   string // "" or the name of the verification variant this contract belongs to
+	FPAbstract   bool      // floats are unconstrained values (NaN/Inf included); only float-independent facts are provable
+	Contended    bool      // runs concurrently with writers of the mutexes it read-locks
+	Variant      string    // "" or the name of the verification variant this contract belongs to
 	Interference []DynCall // environment steps (fnspecs) that may happen between any two steps of this function
 }
 
@@ -856,7 +856,6 @@ func lastOpenParen(s string) int {
 	}
 	return -1
 }
-
 
 // modifiesAll: the contract allows the function to change anything (explicit `modifies all`, or no
 // modifies clause at all: then nothing is promised and nothing is frame-checked).
